@@ -35,6 +35,7 @@ type VPtr struct {
 	ArrIdx   *Term // element index when the location holds an array value
 	ByteView bool  // obtained through unsafe.Pointer from a byte region
 	ObjRef   *Term // unsafe.Pointer that is really a struct object reference
+	Orig     types.Type // element type of the typed pointer an unsafe.Pointer was made from (non-byte regions)
 }
 
 type VIface struct{ Tag, Ref *Term }
